@@ -164,6 +164,7 @@ def finish(prop, tier, seed, mod, results, wall, replay=None):
     broken = []
     extra = {}
     shard_walls = {}
+    attached = set()
     for r in results:
         name = r['shard'].get('name') + (f"#r{r['shard']['replica']}" if r['shard'].get('replica') else '')
         shard_walls[name] = round(r.get('wall_s', 0), 1)
@@ -175,6 +176,7 @@ def finish(prop, tier, seed, mod, results, wall, replay=None):
         case_total += r['case_total']
         for k, v in r['hits'].items():
             hits[k] = hits.get(k, 0) + v
+        attached.update(r.get('attached_points', []))
         for k, v in r['inconclusive'].items():
             inconclusive[k] = inconclusive.get(k, 0) + v
         for k, v in r['workload_classes'].items():
@@ -246,6 +248,9 @@ def finish(prop, tier, seed, mod, results, wall, replay=None):
                 'exhaustive_domains': getattr(mod, 'EXHAUSTIVE_DOMAINS', {}).get(tier, []),
                 'cases_total': int(case_total),
                 'observation_point_hits': hits,
+                # contracts that were attached but never evaluated by any shard of this run: they decide nothing here (a blind spot
+                # to close by a workload, see DESIGN 7.7); the deciding points (DECIDING) make the run inconclusive instead
+                'attached_points_never_reached': sorted(p for p in attached if not hits.get(p)),
                 'workload_classes': wl,
                 'inconclusive': inconclusive,
                 'shards': len(results),
